@@ -592,3 +592,20 @@ _KORE = PG + 'proofs/kore.py'
 V('C19-nary-app-ignores-first-argument', 'C19', [(_KORE, "    for i in range(0, n):\n        p = App(p, MetaVar(i))", "    for i in range(1, n):\n        p = App(p, MetaVar(i))")], names='format-covers-deps')
 V('C19-nary-app-right-nested', 'C19', [(_KORE, "        p = App(p, MetaVar(i))", "        p = App(MetaVar(i), p)")], names='nary-application')
 V('C19-nary-reader-reverses-arguments', 'C19', [(_KORE, "            return symbol, (*args, r)", "            return symbol, (r, *args)")], names='nary-application')
+
+# ---- wave 6 (rules found while mutating the wave-6 twins and the base tree next to them)
+_SLI = PG + 'metamath/metamath_extract_slice.py'
+V('C16-prop1-replayed-as-prop2', 'C16', [(_TR, "prop1 = interpreter().prop1()", "prop1 = interpreter().prop2()")], names='proof-rule-prop-1/axiom')
+V('C17-constant-declaration-drops-one', 'C17', [(_SLI, "statements.append(ConstantStatement(tuple(sorted(needed_constants))))",
+                                                "statements.append(ConstantStatement(tuple(sorted(needed_constants))[1:]))")], names='declares-the-whole-set')
+V('C17-variable-declaration-drops-one', 'C17', [(_SLI, "VariableStatement(tuple(Metavariable(var) for var in sorted(needed_metavariables)))",
+                                                "VariableStatement(tuple(Metavariable(var) for var in sorted(needed_metavariables)[1:]))")], names='declares-the-whole-set')
+V('C17-notation-axioms-for-part-of-the-labels', 'C17', [(_SLI, "map(corresponding_sugar_axiom, needed_lemmas)", "map(corresponding_sugar_axiom, sorted(needed_lemmas)[1:])")],
+  names='label-closure/for-every-label')
+V('C20-equational-branch-reuses-the-rewrite-scope', 'C20', [(_LS, "                                scope = ConvertionScope()\n                                parsed_pattern = semantics._convert_pattern(scope, pattern)",
+                                                             "                                parsed_pattern = semantics._convert_pattern(scope, pattern)")], names='scope-per-axiom')
+V('C20-step-from-event-whatever-follows', 'C20', [(_RS, "if isinstance(e1, LLVMRuleEvent) and isinstance(e2, kore.Pattern):", "if isinstance(e1, LLVMRuleEvent):")],
+  names='hint-chains-configurations')
+V('C14-esubst-replayed-without-plug', 'C14', [(_DES, "interpreter.esubst(evar_id, pattern, plug)", "interpreter.esubst(evar_id, pattern)")], names='reader-slots')
+V('C15-antecedent-remembered-after-the-pop-is-fine', 'C16', [(_TR, "                    saved_antecedents.append((str(stack()[-1]), stack()[-1]))\n                    interpreter().save(str(stack()[-1]), stack()[-1])\n                    interpreter().pop(stack()[-1])",
+                                                              "                    top_ = stack()[-1]\n                    interpreter().save(str(top_), top_)\n                    interpreter().pop(top_)\n                    saved_antecedents.append((str(top_), top_))")], expect='silent')
